@@ -4,6 +4,7 @@ import (
 	"bytes"
 	"fmt"
 	"regexp"
+	"sort"
 	"strings"
 	"time"
 
@@ -42,6 +43,7 @@ func litSets(r *RNG) [][][]byte {
 		mk("zzz", "abc", "c11", "c22", "c33", "c44", "c55", "c66", "abcd"), // priority inversion probe: "abc" (id 1) vs "abcd" (id 8, bucket 0)
 		mk("abcd", "zzz", "c11", "c22", "c33", "c44", "c55", "c66", "abc"),
 		mk("é", "世", "ß"),
+		mk("error", "warn", "info"), mk("hello", "foo"), mk("aax", "abc"), mk("abcde", "abcd", "abc", "ab"), // lengths never increasing; shared first bytes
 	)
 	// generated sets of various sizes
 	for _, n := range []int{2, 3, 8, 9, 16, 32, 33, 40, 64, 65, 80} {
@@ -59,6 +61,12 @@ func litSets(r *RNG) [][][]byte {
 			}
 		}
 		sets = append(sets, set)
+		if n == 3 || n == 9 || n == 40 {
+			// the same set ordered longest first (mixed lengths whose running minimum only ever decreases)
+			d := append([][]byte(nil), set...)
+			sort.SliceStable(d, func(i, j int) bool { return len(d[i]) > len(d[j]) })
+			sets = append(sets, d)
+		}
 	}
 	return sets
 }
@@ -145,6 +153,16 @@ func checkC16(r *Report, known []Finding) {
 			h2 = append(h2, lits[li]...)
 			h2 = append(h2, lits[lj]...)
 			hays = append(hays, h2)
+			// a literal ending exactly at the end of the haystack, directly preceded by the first k bytes of another literal
+			// (a fingerprint candidate that fails verification right before the real, final occurrence)
+			for k := 0; k <= 3; k++ {
+				if k > len(lits[lj]) {
+					break
+				}
+				h3 := append(append([]byte(nil), h[:off]...), lits[lj][:k]...)
+				h3 = append(h3, lits[li]...)
+				hays = append(hays, h3)
+			}
 		}
 		hays = append(hays, nil, []byte("."), bytes.Repeat([]byte("."), 100))
 		for _, h := range hays {
@@ -173,6 +191,17 @@ func checkC16(r *Report, known []Finding) {
 						}
 						r.Violate(fmt.Sprintf("%s.Find(%q, %d) = %d, naive = %d; literals %q", im.name, h, st, got, want, lits),
 							map[string]any{"impl": im.name, "literals": fmt.Sprintf("%q", lits), "haystack_hex": hexOf(h), "start": st, "got": got, "want": want}, false)
+					}
+					// LiteralLen: a complete prefilter that reports a fixed literal length promises that every match it finds has it
+					if im.pf.IsComplete() && im.pf.LiteralLen() > 0 && got >= 0 {
+						tl := r.Tie(im.name + ": IsComplete and LiteralLen()=n>0 => the match at Find's position is [pos,pos+n]")
+						tl.Cases++
+						loc := std.FindIndex(h[got:])
+						if loc == nil || loc[0] != 0 || loc[1] != im.pf.LiteralLen() {
+							tl.Disagreements++
+							r.Violate(fmt.Sprintf("%s is complete with LiteralLen()=%d, Find(%q,%d)=%d, but the alternation %q matches %v there", im.name, im.pf.LiteralLen(), h, st, got, std.String(), loc),
+								map[string]any{"impl": im.name, "pattern": std.String(), "literals": fmt.Sprintf("%q", lits), "haystack_hex": hexOf(h), "start": st, "literal_len": im.pf.LiteralLen()}, false)
+						}
 					}
 					// completeness: span must be the leftmost-first match of the alternation
 					if mf, ok := im.pf.(prefilter.MatchFinder); ok && im.pf.IsComplete() {
@@ -254,4 +283,20 @@ func checkC16(r *Report, known []Finding) {
 		r.Sample(map[string]any{"case": lean[len(lean)/2].desc, "Teddy.Find": lean[len(lean)/2].got, "model": ans[len(lean)/2]})
 	}
 	replayKnownExamples(r, known, "C16")
+}
+
+func init() {
+	// witness of a prefilter finding: literals (comma separated) and a haystack on which Find differs from the naive search
+	exampleReplayers["prefilter"] = func(f Finding) bool {
+		var lits [][]byte
+		for _, l := range strings.Split(f.Example["literals"], ",") {
+			lits = append(lits, []byte(l))
+		}
+		pf := prefilter.NewBuilder(seqOf(lits, true), nil).Build()
+		if pf == nil {
+			return false
+		}
+		h := []byte(f.Example["haystack"])
+		return pf.Find(h, 0) != naiveMulti(lits, h, 0)
+	}
 }
